@@ -30,7 +30,7 @@ ASSUMPTIONS = [
     "never 'exactly once' (ChallengeField legitimately evaluates its default several times)",
 ]
 REQUIRED = ["default:const", "default:callable", "default:none", "op:reset", "reset:after-set", "rejected:on-defined",
-            "op:load_tree", "op:loads", "op:ctor", "varying-default"]
+            "op:load_tree", "op:loads", "op:ctor", "varying-default", "reset:dynamic-subconfig"]
 LEVEL_TEXT = (
     "Generated schemas with every default flavour and generated histories judged against the stated state machine "
     "after every step; kills mutants that forget the default mark on reset, cache callable defaults or clear the "
@@ -303,6 +303,16 @@ def run_case(case, R):
             if name == "reset_sub":
                 conts = ops.spec_containers(spec)
                 path, node = conts[op["cont"] % len(conts)]
+                planted = False
+                if node.get("dynamic"):
+                    # the sub-configuration of a dynamic schema holds a key of its own (not declared) when it is reset
+                    try:
+                        setattr(worlds.get_path(cfg, path), "zzdyn", "undeclared")
+                        planted = True
+                        snap_before = worlds.snapshot(cfg, cc)
+                        R.label("reset:dynamic-subconfig")
+                    except Exception:
+                        pass
                 try:
                     cc.reset_value(cfg, ".".join(path))
                 except Exception as exc:
@@ -312,6 +322,11 @@ def run_case(case, R):
                 sub = worlds.get_path(cfg, path)
                 if R.check(isinstance(sub, cc.Config), "reset", "subconfig", "after reset %s is %r" % (".".join(path), sub)):
                     _check_fresh(world, sub, R, "reset-subconfig", node, path)
+                    if planted:
+                        declared = {c["key"] for c in node["children"]}
+                        extra = [k for k, _ in sub if k not in declared and not k.startswith("is_")]
+                        R.check(not extra, "reset", "subconfig:dynamic-key-survives",
+                                lambda: "after resetting %s the undeclared key(s) %r are still there" % (".".join(path), extra))
                 R.check(cc.is_value_defined(cfg, ".".join(path)) is False, "reset", "subconfig:defined", "sub-configuration still user-defined after reset")
                 after = worlds.snapshot(cfg, cc)
                 R.check(_without(snap_before, path) == _without(after, path), "reset-collateral", "subconfig",
